@@ -473,6 +473,14 @@ def mutations(base, label, sites="all"):
     g = ET.SubElement(s.messages()[-1], "group", {"name": "NoAdded", "required": "N"})
     ET.SubElement(g, "field", {"name": "AddedInGrp", "required": "N"})
     out.append(Variant("%s/add-group" % label, s))
+    # ... and one whose name contains the prefix "No" twice (only the leading one is dropped in the type name)
+    s = b.clone()
+    n = next_num(s)
+    ET.SubElement(s.root.find("fields"), "field", {"number": n, "name": "NoNotedItems", "type": "NUMINGROUP"})
+    ET.SubElement(s.root.find("fields"), "field", {"number": str(int(n) + 1), "name": "NotedItemID", "type": "STRING"})
+    g = ET.SubElement(s.messages()[-1], "group", {"name": "NoNotedItems", "required": "N"})
+    ET.SubElement(g, "field", {"name": "NotedItemID", "required": "N"})
+    out.append(Variant("%s/add-group-name-with-No-twice" % label, s))
     # change one type-mapping entry to each allowed cast
     casts = ["String", "Int", "Float", "Bool", "Raw", "Time"]
     for ti, t in enumerate(list(b.types_root.iter("type"))):
